@@ -49,6 +49,7 @@ def configs(tier, seed):
                 if perm == tuple(range(size)):
                     continue
                 out.append(dict(h="rowperm", op=name, key=f"rowperm/{name}/{''.join(map(str, perm))}", ds=name, perm=list(perm)))
+                out.append(dict(h="rowperm", op=name, key=f"rowperm/{name}/{''.join(map(str, perm))}/columns_keep_labels", ds=name, perm=list(perm), columns=True))
     return out
 
 
@@ -139,7 +140,8 @@ def run(cfg, w):
         w.ob_arr_eq("array_unchanged", x.values, X)
         return
     if h == "rowperm":
-        df = x.to_df().iloc[cfg["perm"]]
+        # dims in the index, or dims in columns with the rows re-ordered the usual pandas way (old integer labels kept)
+        df = x.to_df(index=not cfg.get("columns")).iloc[cfg["perm"]]
         y = FlodymArray.from_df(dims=build_dims(name), df=df)
         for idx in np.ndindex(*dims.shape):
             w.ob(f"entry{list(idx)}", w.same(y.values[idx], X[idx]))
